@@ -131,7 +131,10 @@ def symbolic_result_equals_numeric_result(env, cfg, ck):
             if hasattr(v, 'is_const'):
                 const01 = v.is_const() and v.const() in (0, 1)
             else:
-                const01 = float(v) in (0.0, 1.0)        # numeric replay: exactly 0 or 1 at a generic point
+                # numeric replay: exactly 0 or 1 at a generic point (an input that is itself 0 or +-1 makes
+                # non-structural entries 0 or 1 by coincidence: nothing can be read off such a point)
+                generic = all(abs(float(x)) not in (0.0, 1.0) for x in env.values.values())
+                const01 = generic and float(v) in (0.0, 1.0)
         except Exception:
             const01 = False
         if const01 and fl:
